@@ -146,7 +146,9 @@ func (hr *HistRun) attribute(d Diff, b *BlockSpec, so *stepOut) []string {
 	return nil
 }
 
-func (hr *HistRun) touchedByEVM(addr string) bool { return false }
+func (hr *HistRun) touchedByEVM(addr string) bool {
+	return hr.M.Ref != nil && hr.M.Ref.BlockTouched[strings.ToUpper(addr)]
+}
 
 func (hr *HistRun) issue(prop, sig, detail string) {
 	hr.Issues = append(hr.Issues, Issue{prop, sig, detail})
